@@ -11,7 +11,7 @@ let err_name = function
 let n = nat_of_int
 let arg_of kind x : int arg = if kind = "r" then ArgRef (n (int_of_string x)) else ArgVal (int_of_string x)
 
-let parse_op (cnt : int) (tok : string) : int op =
+let parse_op0 (cnt : int) (tok : string) : int op =
   match String.split_on_char ':' tok with
   | ["ab"; k; x] -> OAddBack (arg_of k x)
   | ["abm"; k; x] -> OAddBackR (arg_of k x)
@@ -37,6 +37,19 @@ let parse_op (cnt : int) (tok : string) : int op =
   | ["set"; i; v] -> OSet (n (int_of_string i), int_of_string v)
   | _ -> failwith ("bad op " ^ tok)
 
+let ints vs = if vs = "" then [] else Stdlib.List.map int_of_string (String.split_on_char ',' vs)
+(* cur = the current element sequence (copy construction / copy assignment = a new array built from it) *)
+let parse_op (cnt : int) (cur : int option list) (tok : string) : int op option =
+  match String.split_on_char ':' tok with
+  | ["emb"; k; x] -> Some (OAddBack (arg_of k x))                      (* AddBackVar / emplace_back *)
+  | ["emi"; j; k; x] -> Some (OInsert (n (int_of_string j), n 1, arg_of k x))   (* InsertVar / emplace: always a temporary *)
+  | ["insl"; j; vs] -> Some (OInsertRange (n (int_of_string j), ints vs))       (* initializer list = forward range *)
+  | ["sc0"; c] -> Some (OSetCount (n (int_of_string c), ArgVal 0))     (* SetCount(n): value-initialised items *)
+  | ["rm1"; j] -> Some (ORemove (n (int_of_string j), n 1))
+  | ["cpc"] | ["cpa"] -> Some (OAssignRange (Stdlib.List.map (function Some v -> v | None -> -1) cur))
+  | ["mvc"] | ["swp"; _; _] -> None                                      (* identity on sequence, capacity, allocations *)
+  | _ -> Some (parse_op0 cnt tok)
+
 let () = iter_lines (fun line ->
   match words line with
   | ["grow"; gor; cap; mn; cause; lin] ->
@@ -50,13 +63,14 @@ let () = iter_lines (fun line ->
     let some v = Some v and none _ = None in
     let (self_move, after_move) = match elem with
       | "pod" | "cpy" -> (some, some) | "ntm" -> (some, none) | _ -> (none, none) in
-    let step = run_op self_move after_move (n icn) true (nm = "1") (nr = "1") (cont = "arrR") in
+    let step = run_op self_move after_move (n icn) (cont <> "arrG") (nm = "1") (nr = "1") (cont = "arrR") in
     let buf = Buffer.create 256 in
     let st = ref (array_empty (n icn)) in
     (try
       Stdlib.List.iteri (fun k tok ->
         let cnt = int_of_nat (ArrayShift.cnt (body !st)) in
-        match step !st (parse_op cnt tok) with
+        let res = match parse_op cnt (observe !st) tok with Some o -> step !st o | None -> Ok !st in
+        match res with
         | Ok a ->
           st := a;
           Buffer.add_char buf '[';
